@@ -265,6 +265,16 @@ func serverCEA(req RefMsg, kind string) RefMsg {
 		a.AVPs = append(a.AVPs, RefAVP{Code: avpAuthApp, Flags: 0x40, Data: u32(4)}, RefAVP{Code: avpAcctApp, Flags: 0x40, Data: u32(3)})
 	case "success-vs":
 		a.AVPs = append(a.AVPs, appEntry{kind: "vs-auth", id: 16777251, vendorFirst: true}.avp())
+	case "success-vs-two", "success-vs-two-rev":
+		// RFC 3588 style: one group naming the application under both types; one of them is supported
+		vid := RefAVP{Code: avpVendorID, Flags: 0x40, Data: u32(10415)}
+		au := RefAVP{Code: avpAuthApp, Flags: 0x40, Data: u32(16777251)}
+		ac := RefAVP{Code: avpAcctApp, Flags: 0x40, Data: u32(16777251)}
+		g := RefAVP{Code: avpVSApp, Flags: 0x40, Group: []RefAVP{vid, au, ac}}
+		if kind == "success-vs-two-rev" {
+			g.Group = []RefAVP{vid, ac, au}
+		}
+		a.AVPs = append(a.AVPs, g)
 	case "success-no-sharing":
 		a.AVPs = append(a.AVPs, RefAVP{Code: avpAuthApp, Flags: 0x40, Data: u32(999)})
 	case "success-no-sharing-vs":
@@ -276,7 +286,7 @@ func serverCEA(req RefMsg, kind string) RefMsg {
 
 // ceaOutcome is the reference verdict for a CEA kind: does the dial return a connection?
 func ceaSharing(kind string) bool {
-	return kind == "success" || kind == "success-vs" || kind == "dup-success"
+	return kind == "success" || kind == "success-vs" || kind == "dup-success" || kind == "success-vs-two" || kind == "success-vs-two-rev"
 }
 
 func serverDWA(req RefMsg, rc uint32) RefMsg {
@@ -350,7 +360,7 @@ func drawHsScript(w *smcWorld) hsScript {
 	if s.answerCER > w.R+2 {
 		s.answerCER = w.R + 1
 	}
-	s.ceaKind = []string{"success", "success", "success-vs", "failed", "failed-3xxx", "success-no-sharing", "success-no-sharing-vs", "success-appless", "no-result-code", "no-origin-host"}[t.Pick(4, 3, 2, 2, 1, 1, 1, 1, 1, 1)]
+	s.ceaKind = []string{"success", "success", "success-vs", "failed", "failed-3xxx", "success-no-sharing", "success-no-sharing-vs", "success-appless", "no-result-code", "no-origin-host", "success-vs-two", "success-vs-two-rev"}[t.Pick(4, 3, 2, 2, 1, 1, 1, 1, 1, 1, 1, 1)]
 	switch t.Pick(3, 3, 2, 2, 2, 1, 1) {
 	case 0:
 		s.delay, s.delayClass = 0, "immediate"
@@ -657,6 +667,17 @@ func smcAfter(w *smcWorld, s hsScript) bool {
 		w.schedule(time.Duration(1+e.T.Draw(5))*time.Millisecond, appAnswer(seq).Bytes(), "app-answer")
 		seq++
 		want++
+	}
+	if !w.watchdog && e.T.Chance(1, 3) {
+		// without a watchdog the client has no use for DWAs itself: an unsolicited one is an
+		// answer like any other and goes to the application's handlers
+		dwa := RefMsg{Cmd: cmdDW, App: 0, HbH: uint32(9500 + seq), E2E: uint32(seq), AVPs: []RefAVP{
+			{Code: avpSessionID, Flags: 0x40, Data: marker(0, seq, 20, 'a')}, {Code: 268, Flags: 0x40, Data: u32(2001)}}}
+		dwa.AVPs = append(dwa.AVPs, identAVPs("srv.peer.example", "peer.example", true, true)...)
+		w.schedule(time.Duration(1+e.T.Draw(5))*time.Millisecond, dwa.Bytes(), "app-answer:dwa")
+		seq++
+		want++
+		e.Probe("unsolicited-dwa-to-application")
 	}
 	for len(w.outbox) > 0 {
 		w.advance(10 * time.Millisecond)
@@ -1459,7 +1480,7 @@ func c10ClientTwo(e *Env) {
 
 // ---------------------------------------------------------------- C12 sweep
 
-var c12SweepKinds = []string{"success", "success-vs", "failed", "failed-3xxx", "success-no-sharing", "success-no-sharing-vs", "success-appless", "no-result-code", "no-origin-host", "dup-success"}
+var c12SweepKinds = []string{"success", "success-vs", "failed", "failed-3xxx", "success-no-sharing", "success-no-sharing-vs", "success-appless", "no-result-code", "no-origin-host", "dup-success", "success-vs-two", "success-vs-two-rev"}
 var c12SweepDelays = []string{"immediate", "half", "deadline-1ns", "deadline+1ns", "on-deadline", "after-budget"}
 
 type c12Case struct {
